@@ -99,6 +99,24 @@ def narrowing_casts(t):
     return out
 
 
+STACKING_ON_TUPLES = {"numpy.asarray", "numpy.array", "numpy.asanyarray", "numpy.ascontiguousarray", "numpy.atleast_1d", "numpy.atleast_2d", "numpy.squeeze", "numpy.ravel", "numpy.copy"}
+TUPLE_RETURNING = {"verde.base.utils.check_data", "verde.base.utils.check_coordinates", "verde.base.utils.n_1d_arrays", "verde.coordinates.grid_coordinates",
+                   "verde.coordinates.scatter_points", "numpy.meshgrid", "numpy.broadcast_arrays", "builtins.zip"}
+
+
+def is_tuple_of_arrays(t):
+    """t is known to be a tuple / list of several arrays (not one array)"""
+    if t[0] in ("tuple", "list") and not (len(t[1]) == 1 and t[1][0][0] == "star"):
+        return len(t[1]) != 1 or t[1][0][0] != "const"
+    if t[0] == "comp":
+        return True
+    if t[0] == "call" and t[1][0] == "glob" and t[1][1] in TUPLE_RETURNING:
+        return True
+    if t[0] == "sub" and t[2][0] == "slice":
+        return is_tuple_of_arrays(t[1])
+    return False
+
+
 def unwrap(t, funcs=IDENT_FUNCS, methods=IDENT_METHODS, int_ok=False):
     """strip value-preserving wrappers (a conversion to an explicit dtype is value-preserving only when it cannot narrow;
     int_ok: the value is an index list, for which a conversion to a full-width integer type is exact)"""
@@ -109,6 +127,8 @@ def unwrap(t, funcs=IDENT_FUNCS, methods=IDENT_METHODS, int_ok=False):
         if t[0] in ("tuple", "list") and len(t[1]) == 1 and t[1][0][0] == "star":
             t = t[1][0][1]
             continue
+        if t[0] == "call" and t[1][0] == "glob" and t[1][1] in STACKING_ON_TUPLES and t[2] and is_tuple_of_arrays(t[2][0]):
+            return t          # np.asarray / np.array of a TUPLE of arrays stacks them into one array of a common dtype: not an identity
         if t[0] == "call" and t[1][0] == "glob" and t[1][1] in funcs and t[2]:
             if "order" in dict(t[3]) or (t[1][1] in ("numpy.ravel",) and len(t[2]) > 1) or (t[1][1] == "numpy.reshape" and len(t[2]) > 2):
                 return t
